@@ -4630,6 +4630,14 @@ def add_segments(part, force_new=False):
     current_volta_end = 0
     current_volta_total_number = 0
 
+    def set_leap_type(info, leap_type):
+        # a segment can start at a leap destination (segno, coda, start) and
+        # end at a leap origin (to coda, dal segno, da capo) at the same time
+        if info["type"] in ("default", leap_type):
+            info["type"] = leap_type
+        else:
+            info["type"] = "leap_start_end"
+
     for ss in boundary_times[:-1]:
         se = segment_info[ss]["end"]
 
@@ -4703,7 +4711,7 @@ def add_segments(part, force_new=False):
             if boundary_type == "coda":
                 # if a coda symbol is passed just continue
                 segment_info[ss]["to"].append(segment_info[se]["ID"])
-                segment_info[se]["type"] = "leap_end"
+                set_leap_type(segment_info[se], "leap_end")
                 segment_info[se]["info"].append("Coda")
 
             if boundary_type == "tocoda":
@@ -4713,13 +4721,13 @@ def add_segments(part, force_new=False):
                 segment_info[ss]["to"].append(
                     "Navigation2_" + segment_info[coda_time]["ID"]
                 )
-                segment_info[ss]["type"] = "leap_start"
+                set_leap_type(segment_info[ss], "leap_start")
                 segment_info[ss]["info"].append("al coda")
 
             if boundary_type == "segno":
                 # if a segno symbol is passed just continue
                 segment_info[ss]["to"].append(segment_info[se]["ID"])
-                segment_info[se]["type"] = "leap_end"
+                set_leap_type(segment_info[se], "leap_end")
                 segment_info[se]["info"].append("segno")
 
             if boundary_type == "dalsegno":
@@ -4730,7 +4738,7 @@ def add_segments(part, force_new=False):
                     "Navigation1_" + segment_info[segno_time]["ID"]
                 )
                 segment_info[ss]["to"].append("Navigation2_" + segment_info[se]["ID"])
-                segment_info[ss]["type"] = "leap_start"
+                set_leap_type(segment_info[ss], "leap_start")
                 segment_info[ss]["info"].append("dal segno")
 
             if boundary_type == "dacapo":
@@ -4740,7 +4748,7 @@ def add_segments(part, force_new=False):
                     "Navigation1_" + segment_info[part.first_point.t]["ID"]
                 )
                 segment_info[ss]["to"].append("Navigation2_" + segment_info[se]["ID"])
-                segment_info[ss]["type"] = "leap_start"
+                set_leap_type(segment_info[ss], "leap_start")
                 segment_info[ss]["info"].append("da capo")
 
             if boundary_type == "fine":
@@ -4757,7 +4765,7 @@ def add_segments(part, force_new=False):
 
             # first segments is always a leap destination (da capo)
             if ss == 0:
-                segment_info[ss]["type"] = "leap_end"
+                set_leap_type(segment_info[ss], "leap_end")
 
     # clean up and ORDER all the jump destination information
     for start_time in boundary_times[:-1]:
@@ -4979,8 +4987,9 @@ class Path:
         new_path.path.append(destination)
 
         if (
-            new_path.segments[destination].type == "leap_end"
-            and new_path.segments[new_path.path[-2]].type == "leap_start"
+            new_path.segments[destination].type in ("leap_end", "leap_start_end")
+            and new_path.segments[new_path.path[-2]].type
+            in ("leap_start", "leap_start_end")
         ):
             if not new_path.jumped:
                 new_path.jumped = True
